@@ -513,7 +513,7 @@ func (e *Engine) proveLemma(name string) {
 			sc := x.specCtx(st, st.heap, st.old, map[string]Value{})
 			sc.noFn = true
 			k := 0
-			for _, cj := range l.C.E.conjuncts() {
+			for _, cj := range e.cs.goals(l.C.E) {
 				k++
 				g := sc.evalBool(cj)
 				fx.name = "lemma:" + name
